@@ -276,7 +276,8 @@ func nBucket(n int) string {
 // filter combinations exactly.
 func TestPropSeq(t *testing.T) {
 	defer flushStats()
-	hx.Check(t, "seq", hx.N(3000, 40000), func(t *rapid.T) {
+	hangSeen.Store(false) // the first hang of every property is decided with the full deadline
+	hx.Check(t, "seq", hx.N(5000, 60000), func(t *rapid.T) {
 		c, class := genSeq(t)
 		hx.Eval()
 		hx.Label("seq N=" + nBucket(c.N) + " len=" + strings.SplitN(class, " ", 2)[0])
@@ -340,7 +341,8 @@ func genConc(t *rapid.T) (*Case, string) {
 // for every schedule, the case records only the drawn configuration.
 func TestPropConc(t *testing.T) {
 	defer flushStats()
-	hx.Check(t, "conc", hx.N(1200, 12000), func(t *rapid.T) {
+	hangSeen.Store(false)
+	hx.Check(t, "conc", hx.N(2000, 30000), func(t *rapid.T) {
 		c, class := genConc(t)
 		total := 0
 		for _, p := range c.Prods {
